@@ -453,6 +453,16 @@ def t5_ext_dispatch(fname):
         if not mp: raise Untranslatable("%s: GREASE helper %s has an unexpected signature" % (fname, mh.group(1)))
         expr = re.sub(r"\b%s\b" % re.escape(mp.group(1)), "ext_type", fn_body(src, mh.group(1), "src/tls_extensions.rs"))
         pre = pre.replace("if%s(ext_type){" % mh.group(1), "if%s{" % nows(expr), 1)
+    # the two locals may be renamed: bring them back to the canonical names ext_data / ext_len
+    mr = re.search(r"let\(i,(\w+)\)=length_data\(be_u16\)\(i\)\?;", pre)
+    ml = re.search(r"let(\w+)=(\w+)\.len\(\)asu16;", pre)
+    if mr and ml and ml.group(2) == mr.group(1) and (mr.group(1), ml.group(1)) != ("ext_data", "ext_len"):
+        ren = {mr.group(1): "ext_data", ml.group(1): "ext_len"}
+        def rn(txt): return re.sub(r"\b(%s)\b" % "|".join(map(re.escape, ren)), lambda m_: ren[m_.group(1)], txt)
+        # identifiers are glued after nows(): rename on the spaced body, then recompute
+        body = rn(body); pre = nows(body.split("match ext_type")[0])
+        if mh:
+            pre = pre.replace("if%s(ext_type){" % mh.group(1), "if%s{" % nows(expr), 1)
     m = re.fullmatch(re.escape(EXT_PRE).replace("MASK", "(0x[0-9a-fA-F_]+|[0-9_]+)").replace("VALSAME", "(0x[0-9a-fA-F_]+|[0-9_]+)(" + re.escape(EXT_SAME) + ")?"), pre)
     if not m: raise Untranslatable("%s prologue changed: %r" % (fname, pre))
     mask, val, same = eval_int(m.group(1), fname), eval_int(m.group(2), fname), bool(m.group(3))
